@@ -89,7 +89,7 @@ def frame(h0, h1, bound, exempt=None):
     out = []
     exempt = exempt or {}
     for k in hp.COMPONENTS:
-        if h0[k] is h1[k] or z3.eq(h0[k], h1[k]):
+        if h0[k] is h1[k] or z3.eq(h0[k], h1[k]) or hp.COMPONENTS[k].domain() != I:
             continue
         cond = z3.And(r >= 0, r < bound)
         if k in exempt:
@@ -360,7 +360,7 @@ def make():
 
     K.append(Contract(
         'DiGraph.get_subgraph', 'graph', [('self', 'graph'), ('nodes', 'iterH')], ret='graph',
-        requires=lambda c: [('wf', wfG(c.h0, c.self.t))], ensures=sub_ens, touches={'dd', 'dv', 'sets', 'fld__next'}, owner='C13'))
+        requires=lambda c: [('wf', wfG(c.h0, c.self.t))], ensures=sub_ens, touches={'dd', 'dv', 'sets', 'fld__next', 'rels'}, owner='C13'))
 
     # -- get_reversed_graph --------------------------------------------------------------
     def rev_ens(c):
@@ -375,7 +375,7 @@ def make():
 
     K.append(Contract(
         'DiGraph.get_reversed_graph', 'graph', [('self', 'graph')], ret='graph',
-        requires=lambda c: [('wf', wfG(c.h0, c.self.t))], ensures=rev_ens, touches={'dd', 'dv', 'sets', 'fld__next'}, owner='C13'))
+        requires=lambda c: [('wf', wfG(c.h0, c.self.t))], ensures=rev_ens, touches={'dd', 'dv', 'sets', 'fld__next', 'rels'}, owner='C13'))
 
     # -- get_reachable_set_from -------------------------------------------------------------
     closed = closed_under
